@@ -8,12 +8,15 @@
    acknowledgement lost, cancel; the end of sc is the cancellation of the context, i.e. the iteration is cut
    between any two attempts),  ILoop k sc  (the loop itself),  IRestart  (new Manager on the same datastore).
    A restart between two attempts of one submitToDA call is  ITick k (first j outcomes) ; IRestart.
+   Chains of any length: an idle stretch of n blocks is n items  IPublish false  (the case files of harness/c06
+   write it as one run-length item, see C06_run_length_full at the end).
 
    NOT in Coq: that a blob decodes to exactly the committed header / signed data and verifies under the
    proposer key (blobs are abstract (kind, height) here; the Go oracle of harness/c06 checks it on the real
    bytes of every blob of every call; the codec is C12's subject). *)
 From Coq Require Import NArith List Bool Sorted.
 From Verif Require Import Model.Submitter Proofs.SubmitterProofs.
+From Verif Require Check.SubmitterCheck.
 Import ListNotations.
 Open Scope N_scope.
 
@@ -77,6 +80,38 @@ Theorem C06_eventually_full : forall (c : cfg) (init : N) (hist : list item) (k 
 Proof. exact (fun c init hist k fails sc kd H1 => eventually_all c init H1 hist k fails sc kd). Qed.
 Print Assumptions C06_eventually_full.
 
+(* Liveness across an idle chain (an instance of C06_eventually_full, stated because it is the situation in which
+   the data watermark does NOT move: it only steps on an accepted non-empty data blob).  From any reachable
+   state, after an idle stretch of ANY length n (blocks without transactions) followed by a block with
+   transactions, one data iteration against a DA layer that fails fewer than maxSubmitAttempts times and then
+   accepts leaves the data of that block on the DA layer.  No bound on n: the pending range handed to
+   createSignedDataToSubmit is the whole of (watermark, height]. *)
+Theorem C06_after_idle_stretch_full : forall (c : cfg) (init : N) (hist : list item) (n : nat) (k : N) (fails sc : list outcome),
+  1 <= init ->
+  forallb nonprogress fails = true -> (length fails < max_attempts)%nat ->
+  let s := run c init (hist ++ repeat (IPublish false) n ++ [IPublish true]) in
+  height s <= k ->
+  let s' := fst (step c s (ITick KData (fails ++ OAccept k :: sc))) in
+  nonempty_at (s_init s) (s_chain s) (height s) = true /\
+  height s = height (run c init hist) + N.of_nat n + 1 /\
+  In (height s) (acc (s_d s')).
+Proof. exact after_idle_stretch. Qed.
+Print Assumptions C06_after_idle_stretch_full.
+
+(* The case files of harness/c06 write a stretch of n blocks of one kind as ONE run-length item (HPublishN b n,
+   Model.Submitter.hitem).  It denotes n single IPublish items, and the comparator (Check.SubmitterCheck.check_items)
+   walks exactly the expanded history: the theorems above, which quantify over all [list item], cover it. *)
+Theorem C06_run_length_full : forall (c : cfg) (init : N) (h : list hitem) (b : bool) (n : N),
+  run c init (expand_hist (h ++ [HPublishN b n])) = run c init (expand_hist h ++ repeat (IPublish b) (N.to_nat n)).
+Proof. exact publish_run_length. Qed.
+Print Assumptions C06_run_length_full.
+
+Theorem C06_comparator_runs_expansion_full : forall (c : cfg) (h : list hitem) (os : list Check.SubmitterCheck.iout) (s : state),
+  length h = length os ->
+  fst (Check.SubmitterCheck.check_items c s h os) = run_from c s (expand_hist h).
+Proof. exact check_items_state. Qed.
+Print Assumptions C06_comparator_runs_expansion_full.
+
 (* ---- non-vacuity ------------------------------------------------------------------------------------ *)
 Definition cf := {| c_bt := 1000; c_ttl := 2 |}.
 
@@ -136,3 +171,19 @@ Example before_the_repair_getpending_fails :
   pending_range 2 2 (resume 2 None) = Some [2] /\ pending_range 7 9 (resume 7 None) = Some [7; 8; 9] /\
   resume 1 None = 0 /\ resume 7 (Some 8) = 8.
 Proof. vm_compute. repeat split; reflexivity. Qed.
+
+(* an idle chain: one block with transactions on the DA layer, then 300 blocks without, then a block with
+   transactions (height 302).  The data watermark is still 1; the pending range of the data iteration is the whole
+   of 2..302, the one non-empty block is found and submitted; the header iteration after a DA outage (3 failures)
+   carries all 301 pending headers in every call.  Hypotheses of C06_after_idle_stretch_full met with n = 300. *)
+Example ex_idle_stretch :
+  let h0 := [IPublish true; ITick KHeader [OAccept 1000]; ITick KData [OAccept 1000]] in
+  let s := run cf 1 (h0 ++ repeat (IPublish false) 300 ++ [IPublish true]) in
+  s = run cf 1 (expand_hist (map HI h0 ++ [HPublishN false 300; HI (IPublish true)])) /\
+  height s = 302 /\ vol (s_d s) = 1 /\ vol (s_h s) = 1 /\
+  pending_range 1 302 (vol (s_d s)) = Some (seqN 2 301) /\
+  let sd := fst (step cf s (ITick KData [OFail FErr; OAccept 302])) in
+  map c_hs (firstn 2 (calls (s_d sd))) = [[302]; [302]] /\ vol (s_d sd) = 302 /\ meta (s_d sd) = Some 302 /\
+  let sh := fst (step cf s (ITick KHeader [OFail FErr; OFail FNotIncluded; OFail FDeadline; OAccept 302])) in
+  map (fun cl => length (c_hs cl)) (firstn 4 (calls (s_h sh))) = [301; 301; 301; 301]%nat /\ vol (s_h sh) = 302.
+Proof. vm_compute. repeat split; try reflexivity; try discriminate. Qed.
